@@ -159,6 +159,10 @@ func ValidateRules(cmd []string) error {
 
 func (user *User) UpdateUser(cmd []string) error {
 	for _, str := range cmd {
+		if len(str) == 0 {
+			// An empty argument is not a rule.
+			continue
+		}
 		// Parse enabled
 		if strings.EqualFold(str, "on") {
 			user.Enabled = true
